@@ -10,9 +10,16 @@ PROP = {
         {"harness": "h_pure", "comp": "dlqwindow", "n_quick": 20000, "n_thorough": 700000,
          "why": "verdicts of the real dlqWindow (v1 stream / v2 funnel) differ from the model that is proved equal to the C07 window specification"},
         funnel_job("C07"), funnel_conc_job("C07"), funnel_shared_job("C07"), arbiter_job(),
+        {"harness": "h_pure", "comp": "dlqcfg", "driver": "dlqwindow", "n_quick": 6000, "n_thorough": 200000,
+         "why": "the nack window that the lifecycle service of an engine constructs for a pipeline (v1 buildDLQHandlerNode -> "
+                "DLQHandlerNode, v2 buildDLQ -> funnel.NewDLQ) does not decide like the window model instantiated with the "
+                "pipeline's CONFIGURED WindowSize / WindowNackThreshold (e.g. a configured size 0 = no limit is rewritten)"},
     ],
     "rule": "dlqwindow: (size, threshold, outcome sequence | batch list) from a seeded generator biased to small windows; "
-            "a case is non-trivial when at least one nack was refused; distinct = distinct case lines. " + FUNNEL_RULE,
+            "a case is non-trivial when at least one nack was refused; distinct = distinct case lines. "
+            "dlqcfg: DLQ configurations (0/0, 0/k, 1/0, n/k around the boundary) given to the real service-level builders of both "
+            "engines through verif hooks, the constructed window driven with an outcome sequence / batch list and compared with the "
+            "model for the configured parameters; non-trivial when the sequence holds a nack. " + FUNNEL_RULE,
     "strength": 'window clause: full (all sizes, thresholds, histories, partitions); fan-out nack arbitration: full; pipeline-level DLQ clauses: partial',
     "assumptions": ["the ring buffer is only driven through Ack/Nack (no concurrent access: it is owned by one goroutine in both engines)"],
 }
